@@ -338,11 +338,22 @@ def impl_run(case):
             ru, mult, rt, amt = q['r']
             rate = ExchangeRate(im.units[ru], _num(mult), im.units[rt], _num(amt))
             x = im.opd(q['x'])
-            if q['o'] == 'mul':
-                return x * rate
-            if q['o'] == 'rmul':
-                return rate * x
-            return x / rate
+
+            def apply():
+                if q['o'] == 'mul':
+                    return x * rate
+                if q['o'] == 'rmul':
+                    return rate * x
+                return x / rate
+            if q.get('conv'):
+                # a money converter (constant rates from a base currency) is registered
+                # while the rate is applied: it must not be consulted
+                from quantity.money import MoneyConverter
+                conv = MoneyConverter(im.units[q['conv']['base']])
+                conv.update(None, [(im.units[c], _num(a), 1) for c, a in q['conv']['rates']])
+                with conv:
+                    return apply()
+            return apply()
         res = observe(thunk)
     elif q['k'] == 'mk':
         n, u = W.number(tuple(q['n'])), im.units.get(q['u'])
